@@ -17,6 +17,8 @@ extern crate rustc_interface;
 extern crate rustc_middle;
 extern crate rustc_session;
 extern crate rustc_span;
+extern crate rustc_infer;
+extern crate rustc_trait_selection;
 
 mod hirx;
 mod json;
@@ -332,6 +334,20 @@ fn export<'tcx>(tcx: TyCtxt<'tcx>, want_mir: bool) -> J {
     ])
 }
 
+fn auto_trait_j<'tcx>(tcx: TyCtxt<'tcx>, did: DefId, which: rustc_hir::LangItem) -> J {
+    use rustc_infer::infer::TyCtxtInferExt;
+    use rustc_trait_selection::infer::InferCtxtExt;
+    if tcx.generics_of(did).requires_monomorphization(tcx) {
+        return J::Null;
+    }
+    let Some(tr) = tcx.lang_items().get(which) else { return J::Null };
+    let ty = tcx.type_of(did).instantiate_identity().skip_norm_wip();
+    let env = ty::TypingEnv::non_body_analysis(tcx, did);
+    let (infcx, param_env) = tcx.infer_ctxt().build_with_typing_env(env);
+    let r = infcx.type_implements_trait(tr, [ty], param_env);
+    J::Bool(r.must_apply_modulo_regions())
+}
+
 fn adt_j<'tcx>(tcx: TyCtxt<'tcx>, did: DefId, reachable: bool) -> J {
     let adt = tcx.adt_def(did);
     let mut variants = Vec::new();
@@ -372,6 +388,24 @@ fn adt_j<'tcx>(tcx: TyCtxt<'tcx>, did: DefId, reachable: bool) -> J {
         ("kind", s(if adt.is_enum() { "enum" } else if adt.is_union() { "union" } else { "struct" })),
         ("variants", J::A(variants)),
         ("non_exhaustive", J::Bool(adt.is_variant_list_non_exhaustive())),
+        ("sync", auto_trait_j(tcx, did, rustc_hir::LangItem::Sync)),
+        ("send", {
+            match tcx.get_diagnostic_item(rustc_span::sym::Send) {
+                Some(tr) => {
+                    use rustc_infer::infer::TyCtxtInferExt;
+                    use rustc_trait_selection::infer::InferCtxtExt;
+                    if tcx.generics_of(did).requires_monomorphization(tcx) {
+                        J::Null
+                    } else {
+                        let ty = tcx.type_of(did).instantiate_identity().skip_norm_wip();
+                        let env = ty::TypingEnv::non_body_analysis(tcx, did);
+                        let (infcx, param_env) = tcx.infer_ctxt().build_with_typing_env(env);
+                        J::Bool(infcx.type_implements_trait(tr, [ty], param_env).must_apply_modulo_regions())
+                    }
+                }
+                None => J::Null,
+            }
+        }),
         ("vis", vis_j(tcx, did)),
         ("reachable", J::Bool(reachable)),
         ("span", span_j(tcx, tcx.def_span(did))),
